@@ -5,7 +5,7 @@ From Coq Require Import ZArith List Bool Reals Lia Lra.
 From FT.lib Require Import Num Arr ArrLemmas Lower NumArr.
 From FT.gen Require Import Common Interp2d Interp3d Vinterp2d Vinterp3d FteikCommon Fteik2d Fteik3d Ray2d Ray3d.
 From FT.proofs Require Import Sweep2dProofs Sweep3dProofs GradR Solve2dProofs Solve3dProofs.
-From FT.proofs Require GradUnit GradSign ApiGenEq.
+From FT.proofs Require GradUnit GradSign GradSign3d ApiGenEq.
 Import ListNotations.
 Open Scope R_scope.
 
@@ -1025,6 +1025,54 @@ Theorem C11_gradient_grids_same_spacing_origin :
        length ApiGen.gradient_2d_items = 2%nat /\ length ApiGen.gradient_3d_items = 3%nat.
 Proof. exact @ApiGenEq.gen_gradient_items_meta. Qed.
 
+(* 3D whole solver, exact arithmetic: every returned gradient vector is (rz, rx, ry) / |(rz, rx, ry)| with each r a one-sided difference quotient of the RETURNED traveltime grid towards the recorded direction (the initialisation seed where the direction is 0); components in the order (Z, X, Y) *)
+Theorem C11_gradient_is_normalised_one_sided_difference_3d :
+  forall (slow : arr R) (dz dx dy zsrc xsrc ysrc : R) (nsweep : Z) (tt ttgrad : arr R) (vzero : R),
+       fteik3d slow dz dx dy zsrc xsrc ysrc nsweep true = Ok (tt, ttgrad, vzero) ->
+       let sg := snd (GradSign3d.final_state3 slow dz dx dy zsrc xsrc ysrc nsweep) in
+       let G0 := GradSign3d.grad0_3d slow dz dx dy zsrc xsrc ysrc in
+       tt = fst (GradSign3d.final_state3 slow dz dx dy zsrc xsrc ysrc nsweep) /\
+       (forall i j k : Z,
+        (0 <= i < dim slow 0 + 1)%Z ->
+        (0 <= j < dim slow 1 + 1)%Z ->
+        (0 <= k < dim slow 2 + 1)%Z ->
+        let rz := GradSign3d.raw3_z tt sg dz G0 i j k in
+        let rx := GradSign3d.raw3_x tt sg dx G0 i j k in
+        let ry := GradSign3d.raw3_y tt sg dy G0 i j k in
+        get 0 ttgrad [i; j; k; 0%Z] = GradSign3d.normed3 rz rx ry rz /\
+        get 0 ttgrad [i; j; k; 1%Z] = GradSign3d.normed3 rz rx ry rx /\
+        get 0 ttgrad [i; j; k; 2%Z] = GradSign3d.normed3 rz rx ry ry).
+Proof. exact @GradSign3d.fteik3d_gradient_assembly. Qed.
+
+(* 3D: c * s >= 0 iff the neighbour the direction points to is not later than the node, c * s < 0 iff it is later - for each of the three axes *)
+Theorem C11_gradient_component_sign_follows_grid_difference_3d :
+  forall (slow : arr R) (dz dx dy zsrc xsrc ysrc : R) (nsweep : Z) (tt ttgrad : arr R) (vzero : R),
+       0 < dz ->
+       0 < dx ->
+       0 < dy ->
+       fteik3d slow dz dx dy zsrc xsrc ysrc nsweep true = Ok (tt, ttgrad, vzero) ->
+       let sg := snd (GradSign3d.final_state3 slow dz dx dy zsrc xsrc ysrc nsweep) in
+       forall i j k : Z,
+       (0 <= i < dim slow 0 + 1)%Z ->
+       (0 <= j < dim slow 1 + 1)%Z ->
+       (0 <= k < dim slow 2 + 1)%Z ->
+       (let s := get 0%Z sg [i; j; k; 0%Z] in
+        let c := get 0 ttgrad [i; j; k; 0%Z] in
+        s <> 0%Z ->
+        (0 <= c * IZR s <-> get 0 tt [(i - s)%Z; j; k] <= get 0 tt [i; j; k]) /\
+        (c * IZR s < 0 <-> get 0 tt [i; j; k] < get 0 tt [(i - s)%Z; j; k])) /\
+       (let s := get 0%Z sg [i; j; k; 1%Z] in
+        let c := get 0 ttgrad [i; j; k; 1%Z] in
+        s <> 0%Z ->
+        (0 <= c * IZR s <-> get 0 tt [i; (j - s)%Z; k] <= get 0 tt [i; j; k]) /\
+        (c * IZR s < 0 <-> get 0 tt [i; j; k] < get 0 tt [i; (j - s)%Z; k])) /\
+       (let s := get 0%Z sg [i; j; k; 2%Z] in
+        let c := get 0 ttgrad [i; j; k; 2%Z] in
+        s <> 0%Z ->
+        (0 <= c * IZR s <-> get 0 tt [i; j; (k - s)%Z] <= get 0 tt [i; j; k]) /\
+        (c * IZR s < 0 <-> get 0 tt [i; j; k] < get 0 tt [i; j; (k - s)%Z])).
+Proof. exact @GradSign3d.fteik3d_gradient_sign_iff. Qed.
+
 Print Assumptions C11_sweep_tt_independent_of_grad.
 Print Assumptions C11_sweep2d_tt_independent_of_grad.
 Print Assumptions C11_sweep3d_tt_independent_of_grad.
@@ -1043,3 +1091,5 @@ Print Assumptions C11_recorded_direction_not_always_upwind.
 Print Assumptions C11_gradient_grids_component_order_2d.
 Print Assumptions C11_gradient_grids_component_order_3d.
 Print Assumptions C11_gradient_grids_same_spacing_origin.
+Print Assumptions C11_gradient_is_normalised_one_sided_difference_3d.
+Print Assumptions C11_gradient_component_sign_follows_grid_difference_3d.
